@@ -16,7 +16,7 @@ ANCHORS = ["Interval.contains", "Interval.overlaps", "Interval.intersection", "A
 REQUIRED = ["interval.contains", "interval.overlaps", "interval.intersection", "interval.mul.neg", "interval.div.neg",
             "interval.mul.zero", "interval.round", "interval.reject", "angle.contains.float", "angle.contains.int",
             "angle.len>pi", "angle.wrap", "angle.shift", "angle.contains.interval", "angle.contains.numpy",
-            "angle.many-turns-away"]
+            "angle.many-turns-away", "rebound.start-lowered", "rebound.end-raised"]
 ASSUMPTIONS = ["angles within 1e-9 of an interval end are not judged (skipped_band)",
                "float division/multiplication are IEEE correctly rounded, so the exact rational result rounded to "
                "double is the expected value"]
@@ -313,3 +313,67 @@ def run(ctx):
                 if not ok:
                     viol("AngleInterval.%s/wrong-image" % nm, "[%r,%r] %s %r = (%r,%r)" % (
                         a, b, nm, s, res.start, res.end), [a, b, s])
+
+    # ----------------------------------------------------------------------- intervals whose bounds were re-assigned
+    # "x is contained in Interval [a, b]": a and b are the bounds the interval has NOW. The same object answers a battery
+    # of queries (also .length, so that anything the object memorises has been computed), gets a bound re-assigned through
+    # the public setters, and answers again.
+    grid = [-8.0, -3.0, -1.5, -0.5, 0.0, 0.25, 1.0, 2.0, 3.5, 7.0]
+    n = ctx.pick(300, 20000)
+    for idx, rng in ctx.cases("rebound", n):
+        a, b = sorted(rng.sample(grid, 2))
+        iv = Interval(a, b)
+        hist = []
+        for step in range(rng.randint(2, 5)):
+            qs = [(c, d) for c in grid for d in grid if c <= d]
+            rng.shuffle(qs)
+            _ = iv.length
+            for c, d in qs[:12]:
+                ctx.evaluation(3)
+                other = Interval(c, d)
+                exp = (a <= c and d <= b, not (d < a or b < c))
+                r1, r2 = _exc(iv.contains, other), _exc(iv.overlaps, other)
+                x = rng.choice(grid) + rng.choice([0.0, 0.125])
+                r3 = _exc(iv.contains, x)
+                if r1[0] == "exc" or r2[0] == "exc" or r3[0] == "exc":
+                    viol("Interval/rebound/raises", "after %s: %r %r %r" % (hist, r1, r2, r3), [a, b, c, d, hist])
+                    break
+                if bool(r1[1]) != exp[0]:
+                    viol("Interval.contains(Interval)/wrong-after-%s" % (hist[-1] if hist else "construction"),
+                         "[%r,%r] (history %s).contains([%r,%r])=%r" % (a, b, hist, c, d, r1[1]), [a, b, c, d, hist])
+                if bool(r2[1]) != exp[1]:
+                    viol("Interval.overlaps/wrong-after-%s" % (hist[-1] if hist else "construction"),
+                         "[%r,%r] (history %s).overlaps([%r,%r])=%r" % (a, b, hist, c, d, r2[1]), [a, b, c, d, hist])
+                if bool(r3[1]) != (a <= x <= b):
+                    viol("Interval.contains/wrong-after-%s" % (hist[-1] if hist else "construction"),
+                         "[%r,%r] (history %s).contains(%r)=%r" % (a, b, hist, x, r3[1]), [a, b, x, hist])
+                if abs(float(iv.length) - (b - a)) > 1e-12:
+                    viol("Interval.length/wrong-after-%s" % (hist[-1] if hist else "construction"),
+                         "[%r,%r] (history %s).length=%r" % (a, b, hist, iv.length), [a, b, hist])
+            # re-assign one bound (keeping start <= end)
+            which = rng.choice(["start-lowered", "start-raised", "end-lowered", "end-raised"])
+            if which == "start-lowered":
+                cand = [g for g in grid if g < a]
+            elif which == "start-raised":
+                cand = [g for g in grid if a < g <= b]
+            elif which == "end-lowered":
+                cand = [g for g in grid if a <= g < b]
+            else:
+                cand = [g for g in grid if g > b]
+            if not cand:
+                continue
+            v = rng.choice(cand)
+            try:
+                if which.startswith("start"):
+                    iv.start = v
+                    a = v
+                else:
+                    iv.end = v
+                    b = v
+            except Exception as e:  # noqa
+                viol("Interval/rebound/setter-raises-%s" % type(e).__name__, "%s=%r on [%r,%r]: %r" % (which, v, a, b, e),
+                     [a, b, which, v])
+                break
+            hist.append(which)
+            ctx.feature("rebound." + which)
+        ctx.fingerprint(["rebound", idx, hist])
